@@ -64,6 +64,35 @@ def spec (head : List String) (ups : List UpIn) : List String × Bool :=
       joinWith "," (toString k :: ups.map fun u => showList ((u.rows.filter (·.1 == k)).map (·.2))), true)
   | _ => (r0.map showRow, true)   -- writer, scan, readerfunc, frame, readfull, scanner, closing
 
+/-! ### step-level tie: the reader state machines of `BS.Reader`, run call by call -/
+
+def parseScript (sc : List String) : List (Nat × Bool) :=
+  sc.map fun t => if t.endsWith "e" then (toNat! (t.dropEnd 1).toString, true) else (toNat! t, false)
+
+def upOf (u : UpIn) : Up Row := ⟨u.rows, parseScript u.script, false⟩
+
+/-- (rows returned, end-of-stream?) of each call, for the requested destination sizes -/
+def simCalls {α} (R : Rd α) : R.σ → List Nat → List (Nat × Bool)
+  | _, [] => []
+  | s, k :: ks => let r := R.read s k; (r.2.1.length, r.2.2 == .eof) :: simCalls R r.1 ks
+
+def upFuel (u : Up Row) : Nat := u.rest.length + u.script.length + 4
+
+/-- per-call behaviour the model predicts for the kinds that have a state-machine model -/
+def simulate (head : List String) (ups : List UpIn) (ks : List Nat) : Option (List (Nat × Bool)) :=
+  let u0 := upOf (ups.headD ⟨[], []⟩)
+  match head with
+  | ["map"] => some (simCalls (mapRd (upRd Row) fun (k, v) => (k + 1, v * 2)) u0 ks)
+  | ["filter"] => some (simCalls (filterRd (upRd Row) (fun (k, _) => k % 3 != 0) upFuel) ⟨u0, false⟩ ks)
+  | ["flatmap"] =>
+    some (simCalls (flatRd (upRd Row) (fun (k, v) => (List.range (k % 4).toNat).map fun (j : Nat) => (k, v + Int.ofNat j)) upFuel)
+      ⟨u0, [], [], false⟩ ks)
+  | ["head", n] => some (simCalls (headRd (upRd Row)) ⟨u0, toNat! n⟩ ks)
+  | ["multi"] | ["emulti"] =>
+    some (simCalls (multiRd (upRd Row) fun q => (q.map fun u => upFuel u + 1).sum + 2) (ups.map upOf) ks)
+  | ["frame"] => some (simCalls (frameRd Row) u0.rest ks)
+  | _ => none
+
 def insertStr (x : String) : List String → List String
   | [] => [x]
   | y :: ys => if x ≤ y then x :: y :: ys else y :: insertStr x ys
@@ -76,7 +105,8 @@ def isPrefix : List String → List String → Bool
 
 /-- Judge a drained-reader observation `end calls=… | rows=… | altered=…[ | extra]` against the rows
 the reader must deliver. -/
-def judge (kind : String) (failing ordered : Bool) (want : List String) (obs : String) : String × Bool :=
+def judge (kind : String) (failing ordered : Bool) (want : List String) (obs : String)
+    (sim : List Nat → Option (List (Nat × Bool)) := fun _ => none) : String × Bool :=
   match obs.splitOn " | " with
   | callsPart :: rowsPart :: alteredPart :: more =>
     let ended := callsPart.startsWith "end "
@@ -107,6 +137,13 @@ def judge (kind : String) (failing ordered : Bool) (want : List String) (obs : S
           if got != want then throw "delivered rows differ from the operator's meaning on the whole input"
         else
           if sortStrs got != sortStrs want then throw "delivered rows differ (as a multiset) from the operator's meaning"
+      if !failing then
+        match sim (calls.map fun cl => toNat! (cl.getD 0 "0")) with
+        | some want =>
+          let gotc := calls.map fun cl => (toNat! (cl.getD 1 "0"), cl.getD 2 "-" == "eof")
+          if gotc != want then
+            throw s!"the calls (rows, end-of-stream) differ from the reader state machine of the model: model {want}"
+        | none => pure ()
       if kind == "writer" && !failing then
         match more with
         | [w] =>
@@ -138,7 +175,9 @@ def run (c obs : String) : String × String × Bool :=
     let failing := (obs.splitOn " | injected=").getD 1 "0" != "0"
     let obs := (obs.splitOn " | injected=").getD 0 ""
     let model := "rows=" ++ joinWith ";" want
+    let scripted := ups.any fun u => u.script.any fun t => t == "err" || t == "tmp"
     let (o, s) := judge (head.headD "") failing ordered want obs
+      (if scripted then fun _ => none else simulate head ups)
     (model, o, s)
 
 end Driver.C17
